@@ -61,8 +61,10 @@ class HWalker(Walker):
         f = call.func
         if not isinstance(f, ast.Attribute) or self.inline_mode != 'all':
             return None
-        if isinstance(f.value, ast.Name) and f.value.id in self.facts.classes and f.value.id not in st.env:
-            owner, m = self.facts.method(f.value.id, f.attr)
+        recv = self.sym(f.value, st)
+        if recv[0] == 'name' and recv[1] in self.facts.classes:
+            # Cls.m(...) (also through a `cls` variable bound to the class): static and class methods
+            owner, m = self.facts.method(recv[1], f.attr)
             if m is None:
                 return None
             decos = {getattr(d, 'id', getattr(d, 'attr', None)) for d in m.decorator_list}
@@ -70,9 +72,10 @@ class HWalker(Walker):
             if 'staticmethod' in decos:
                 return m, {}, pos
             if 'classmethod' in decos and pos:
-                return m, {pos[0]: ('name', f.value.id)}, pos[1:]
+                return m, {pos[0]: recv}, pos[1:]
+            if not decos and pos:
+                return m, {}, pos          # unbound method called with an explicit self
             return None
-        recv = self.sym(f.value, st)
         if recv[0] == 'new':
             classes = {recv[1]}
         else:
@@ -96,7 +99,12 @@ class HWalker(Walker):
         if not pos:
             return None
         if 'classmethod' in decos:
-            return None
+            # called on an instance: cls is the instance's class (decidable when exactly one class is known for it)
+            known = [c for c in classes if c in self.facts.classes and self.facts.method(c, f.attr)[1] is m]
+            most = [c for c in known if not any(o != c and self.facts.is_subclass(o, c) for o in known)]
+            if len(most) != 1:
+                return None
+            return m, {pos[0]: ('name', most[0])}, pos[1:]
         return m, {pos[0]: recv}, pos[1:]
 
     def _inlinable(self, fn, call):
@@ -389,7 +397,7 @@ def _replace(root, old, new):
     return R().visit(root)
 
 
-def function_paths(facts, fn, inline='all', opaque=(), name_results=False, max_paths=20000, self_class=None):
+def function_paths(facts, fn, inline='all', opaque=(), name_results=False, max_paths=20000, self_class=None, defaults=()):
     """Every path through the body of `fn` (a FunctionDef: module-level function, method or nested function) with its parameters
     symbolic (`self_class`: the class of the first parameter of a method).  Returns (walker, [PathState])."""
     w = HWalker(facts, root_fn=fn, inline=inline, opaque=opaque, name_results=name_results, max_paths=max_paths)
@@ -397,16 +405,23 @@ def function_paths(facts, fn, inline='all', opaque=(), name_results=False, max_p
     a = fn.args
     if self_class is not None and a.args:
         st.fact(('name', a.args[0].arg))['isa'].add(self_class)
+    # parameters that the caller knows are always left at their default value
+    pos = [x.arg for x in getattr(a, 'posonlyargs', []) + a.args]
+    dflt = dict(zip(pos[len(pos) - len(a.defaults):], a.defaults))
+    dflt.update({x.arg: d for x, d in zip(a.kwonlyargs, a.kw_defaults) if d is not None})
     for x in getattr(a, 'posonlyargs', []) + a.args + a.kwonlyargs:
         st.env[x.arg] = ('name', x.arg)
     if a.vararg:
         st.env[a.vararg.arg] = ('name', a.vararg.arg)
     if a.kwarg:
         st.env[a.kwarg.arg] = ('name', a.kwarg.arg)
+    for name in defaults:
+        if name in dflt:
+            st.env[name] = w.sym(dflt[name], PathState())
     return w, w.run(fn.body, st)
 
 
-def loop_paths_h(facts, fn, inline='all', opaque=()):
+def loop_paths_h(facts, fn, inline='all', opaque=(), self_class=None):
     """pathwalk.loop_paths with the higher-order walker: path summaries of one iteration of the first top-level `for` (or `while`)
     loop of `fn` (locals that the loop mutates are the symbolic ('lv', name)).  Returns (loop node, [PathState]); for a while loop
     the state before the loop is available as paths[i].pre_env."""
@@ -416,6 +431,8 @@ def loop_paths_h(facts, fn, inline='all', opaque=()):
     pre = PathState()
     for a in fn.args.args + fn.args.kwonlyargs:
         pre.env[a.arg] = ('name', a.arg)
+    if self_class is not None and fn.args.args:
+        pre.fact(('name', fn.args.args[0].arg))['isa'].add(self_class)
     target = None
     prelude_done = []
     live = [pre]
